@@ -2,6 +2,6 @@
 EXTENDS ParamFlow, Json, IOUtils, FiniteSetsExt, SequencesExt
 ASSUME TLCSet(2, {})
 Collect == stage = "done" => TLCSet(2, TLCGet(2) \cup {[req |-> req, raised |-> link = "raised",
-                                                        required |-> SetToSeq({o \in Outs : Required(o)}), reaches |-> SetToSeq({o \in Outs : Reaches(o)})]})
+                                                        paths |-> SetToSeq(Paths(req.p)), required |-> SetToSeq({o \in Outs : Required(o)}), reaches |-> SetToSeq({o \in Outs : Reaches(o)})]})
 Export == ndJsonSerialize(IOEnv.OUT_FILE, SetToSeq(TLCGet(2)))
 =============================================================================
